@@ -220,6 +220,23 @@ def check_root(c, rec):
     rec.count("root_reported_error_large")
 
 
+def _guard(c, rec):
+  """Runs one case; an exception raised inside the repository becomes a violation whose witness is the case."""
+  import traceback
+  try:
+    if c["fn"] == "apply":
+      check_apply(c, rec)
+    elif c["fn"] == "root":
+      check_root(c, rec)
+    else:
+      check_pack(c["d"], c["r"], c["hz"], c["seed"], rec)
+  except Exception as e:  # pylint: disable=broad-except
+    fr = [f for f in traceback.extract_tb(e.__traceback__) if "/precondition/" in f.filename]
+    if not fr:
+      raise
+    rec.violation("crash:%s@%s" % (type(e).__name__, fr[-1].name), "%s in %s: %s" % (type(e).__name__, fr[-1].name, str(e)[:200]), c)
+
+
 def run(spec, rec):
   kind = spec["kind"]
   if kind == "pack":
@@ -227,24 +244,16 @@ def run(spec, rec):
       for k in range(1, d - 2):
         for r in (k, -k):
           for hz in (0, 1):
-            check_pack(d, r, hz, 1000 * d + 10 * k + hz, rec)
+            _guard({"fn": "pack", "d": d, "r": r, "hz": hz, "seed": 1000 * d + 10 * k + hz}, rec)
     return
   rng = util.rng_for(spec["seed"], PROPERTY, spec["name"])
   for i in range(spec["n"]):
     if time.time() > rec.deadline:
       rec.count("dropped_for_budget", spec["n"] - i)
       break
-    if kind == "apply":
-      check_apply(gen_apply(rng), rec)
-    else:
-      check_root(gen_root(rng), rec)
+    c = gen_apply(rng) if kind == "apply" else gen_root(rng)
+    _guard(c, rec)
 
 
 def replay(witness, rec):
-  w = util.dec(witness)
-  if w["fn"] == "pack":
-    check_pack(w["d"], w["r"], w["hz"], w["seed"], rec)
-  elif w["fn"] == "apply":
-    check_apply(w, rec)
-  else:
-    check_root(w, rec)
+  _guard(util.dec(witness), rec)
